@@ -291,6 +291,26 @@ func init() {
 				one(fmt.Sprintf("deep-handler:limit=%d", limit), sc)
 			}
 		}
+		// (g) well-formed but unusual input: the scenario generators of the
+		// other checks (delivery graphs, addressing mixtures, side-effect
+		// matrices, reply graphs, pages with duplicates anywhere) - a panic
+		// or a request that does not return on legal input is a violation
+		// just the same
+		nBorrow := 150
+		if thorough() {
+			nBorrow = 4000
+		}
+		bg := borrowedGenerators()
+		var bnames []string
+		for name := range bg {
+			bnames = append(bnames, name)
+		}
+		sort.Strings(bnames)
+		for _, name := range bnames {
+			for i := 0; i < nBorrow; i++ {
+				one(fmt.Sprintf("generated:%s#%d", name, i), bg[name](prng.New(seed, "c11.borrow."+name, i)))
+			}
+		}
 		counters["total_cases_enumerated"] = idx
 		jl.Done(counters)
 		return 0
